@@ -50,13 +50,10 @@ Print Assumptions c32_rerun_equals_failure_free_run_partial.
 Example c32_ex_fault_fires : fault_fires_check = true.
 Proof. exact fault_fires. Qed.
 
-(* ---- REFUTED: "an object added in the transaction is transient again after the failed flush was
-   rolled back" (finding C32-expunged-object-with-key-switch-left-detached): new(1,0); flush; o.id = 2;
-   flush failing in after_flush_postexec; rollback - the object keeps identity key 1 (detached) although
-   row 1 never was committed.  (The history is a guarded one: the theorems above hold for it - a detached
-   object is not the session's any more - but the application cannot simply add() it again.) *)
-Theorem c32_added_objects_transient_after_rollback_refuted :
-  fst (finalf false w_d7) = Ok /\ all_keyless (snd (finalf false w_d7)) = false /\
-  okey (objs (snd (finalf false w_d7)) 0%nat) = Some 1%Z /\ committed (snd (finalf false w_d7)) 1%Z = None.
-Proof. exact added_objects_transient_refuted. Qed.
-Print Assumptions c32_added_objects_transient_after_rollback_refuted.
+(* ---- formerly REFUTED, repaired in 6d10bc4 (finding C32-expunged-object-with-key-switch-left-detached):
+   new(1,0); flush; o.id = 2; flush failing in after_flush_postexec; rollback - the object added in the
+   rolled back transaction is transient again (no identity key, not attached) *)
+Example c32_ex_added_object_transient_after_rollback :
+  fst (finalf false w_d7) = Ok /\ all_keyless (snd (finalf false w_d7)) = true /\
+  oatt (objs (snd (finalf false w_d7)) 0%nat) = false /\ committed (snd (finalf false w_d7)) 1%Z = None.
+Proof. exact added_object_transient_again. Qed.
